@@ -291,6 +291,8 @@ def install_seams():
         lg.propagate = False
         lg.setLevel(logging.ERROR)
 
+    # the instrumentation wrappers double the frames of a depth-first push through a feedback cycle
+    sys.setrecursionlimit(max(sys.getrecursionlimit(), 20000))
     # generators finalised after their loop was disposed complain on stderr: not our business
     sys.unraisablehook = lambda unraisable: None
 
